@@ -405,6 +405,7 @@ fn replay_fresh(path: &str, timeout: Duration) -> (Option<i32>, String) {
     let mut child = match Command::new(exe())
         .arg("replay")
         .arg(path)
+        .arg("--quiet")
         .stdin(Stdio::null())
         .stdout(Stdio::piped())
         .stderr(Stdio::null())
@@ -413,15 +414,22 @@ fn replay_fresh(path: &str, timeout: Duration) -> (Option<i32>, String) {
         Ok(c) => c,
         Err(_) => return (None, String::new()),
     };
+    // drain the child's output while it runs (a full pipe would block it)
+    let out = child.stdout.take();
+    let drain = std::thread::spawn(move || {
+        let mut s = String::new();
+        if let Some(mut o) = out {
+            use std::io::Read;
+            let _ = o.read_to_string(&mut s);
+        }
+        s
+    });
+    let mut drain = Some(drain);
     let start = Instant::now();
     loop {
         match child.try_wait() {
             Ok(Some(st)) => {
-                let mut s = String::new();
-                if let Some(mut o) = child.stdout.take() {
-                    use std::io::Read;
-                    let _ = o.read_to_string(&mut s);
-                }
+                let s = drain.take().map(|d| d.join().unwrap_or_default()).unwrap_or_default();
                 let class = s
                     .lines()
                     .find_map(|l| l.strip_prefix("REPLAY class="))
@@ -903,8 +911,11 @@ pub fn replay(path: &str, verbose: bool) -> i32 {
             if verbose {
                 let run = v.faulted.as_ref().or(v.calib.as_ref());
                 if let Some(run) = run {
-                    for (i, e) in run.events.iter().enumerate() {
+                    for (i, e) in run.events.iter().enumerate().take(300) {
                         println!("  [{:3}] {:?}", i, e);
+                    }
+                    if run.events.len() > 300 {
+                        println!("  ... {} more events", run.events.len() - 300);
                     }
                 }
             }
